@@ -47,7 +47,7 @@ package gcrypto
 //@   modifies bsbits(dst)
 
 //@ iface CommonMessageSignatureProof.Clone(p)
-//@   ensures result != nil && ref(result) != ref(p)
+//@   ensures result != nil && ref(result) != ref(p) && fresh(ref(result))
 //@   ensures pbits(result) == pbits(p) && pmsg(result) == pmsg(p) && pkeys(result) == pkeys(p) && pkhash(result) == pkhash(p)
 //@   ensures typeof(result) == typeof(p)
 
@@ -62,6 +62,9 @@ package gcrypto
 // The model fields of a Simple proof are its representation (definition of the model on this concrete type).
 //@ axiom simple-repr-keys: forall x SimpleCommonMessageSignatureProof :: {asiface(x)} pkeys(asiface(x)) == x.keys && pkhash(asiface(x)) == x.keyHash
 //@ axiom simple-repr-msg: forall x SimpleCommonMessageSignatureProof :: {pmsg(asiface(x))} pmsg(asiface(x)) == bytes(x.msg)
+// Allocation identity of a Simple proof value (a struct held in the interface) is that of its bit set: a proof whose
+// bit set was allocated after a point in time is distinct from every proof that existed at that point.
+//@ axiom simple-repr-identity: forall x SimpleCommonMessageSignatureProof :: {asiface(x)} base(asiface(x)) == base(x.bitset)
 //@ define SCoupling(self, p) = pmsg(self) == bytes(p.msg) && pkeys(self) == p.keys && pkhash(self) == p.keyHash
 
 //@ func SimpleCommonMessageSignatureProof.AddSignature
